@@ -23,17 +23,26 @@ def main(argv=None):
     rng = random.Random(seed)
     algos = ["superdtl", "base_uspfs"]
     if tier == "quick":
-        small = [SR.random_super_input(rng, 3, rng.randint(2, 3), rng.randint(1, 3), False) for _ in range(110)]
+        small = [SR.random_super_input(rng, 3, rng.randint(2, 3), rng.randint(1, 3), False) for _ in range(70)]
         mid = [SR.random_super_input(rng, 4, rng.randint(2, 4), 3, False) for _ in range(32)]
         big = []
-        budget, mp, bs = 100, 6000, 200.0
+        budget, mp, bs = 150, 6000, 200.0
     else:
         small = list(SR.exhaustive_super_inputs(3, 2, 2, False)) + list(SR.exhaustive_super_inputs(3, 3, 2, False))
         small += [SR.random_super_input(rng, 3, rng.randint(2, 3), 3, False) for _ in range(300)]
         mid = [SR.random_super_input(rng, 4, rng.randint(2, 4), rng.randint(2, 4), False) for _ in range(300)]
         big = [SR.random_super_input(rng, 5, rng.randint(3, 4), rng.randint(3, 4), False) for _ in range(60)]
         budget, mp, bs = 1500, 30000, 900.0
+    q = tier == "quick"
+    hist = [SR.random_super_input(rng, rng.randint(3, 4), rng.randint(2, 3), rng.randint(2, 3), False) for _ in range(10 if q else 80)]
+    # 4-5 leaves with dup, hgt, sloss symbolic (cheaper per input: more shapes, deeper trees)
+    mid2 = [SR.random_super_input(rng, rng.randint(4, 5), rng.randint(2, 4), rng.randint(2, 4), False) for _ in range(30 if q else 0)]
+    deep = [SR.random_super_input(rng, rng.randint(5, 6), rng.randint(2, 4), rng.randint(2, 3), False) for _ in range(150 if q else 600)]
     sections = [
+        ("call history: the same solver called earlier in the same interpreter (same input at default costs, sibling input at other costs), "
+         "then explored with five symbolic costs", [(d, SR.history_runs(algos, FLAGS)) for d in hist], False),
+        ("4-5 leaves, dup/hgt/sloss symbolic (spe=0, floss=1), any + all", [(d, SR.runs_for(algos, ["any", "all"], FLAGS, "dhs")) for d in mid2], False),
+        ("5-6 leaves x 2-3 families, dup/hgt/sloss symbolic (spe=0, floss=1), any", [(d, SR.runs_for(algos, ["any"], FLAGS, "dhs")) for d in deep], False),
         ("3 leaves, five symbolic costs", [(d, SR.runs_for(algos, ["any", "all"], FLAGS, "full")) for d in small], tier == "thorough"),
         ("4 leaves, five symbolic costs", [(d, SR.runs_for(algos, ["any", "all"], FLAGS, "full")) for d in mid], False),
         ("5 leaves, dup/hgt/sloss symbolic (spe=0, floss=1)", [(d, SR.runs_for(algos, ["any"], FLAGS, "dhs")) for d in big], False),
@@ -41,7 +50,7 @@ def main(argv=None):
     sections = [s for s in sections if s[1]]
     return sr_main.run(
         PROP, tier, seed, sections, ["unordered", "dp"],
-        bounds={"inputs": "quick: 110 seeded 3-leaf + 32 seeded 4-leaf inputs; thorough: every 3-leaf input over 2 families (species 2-3 leaves, "
+        bounds={"inputs": "quick: 70 seeded 3-leaf + 32 seeded 4-leaf inputs (five symbolic costs) + 30 seeded 4-5-leaf and 150 seeded 5-6-leaf inputs (dup, hgt, sloss symbolic) + 10 call-history inputs; thorough adds 600 seeded 5-6-leaf inputs and 80 call-history inputs to: thorough: every 3-leaf input over 2 families (species 2-3 leaves, "
                           "every leaf assignment, every leaf content) + 300 seeded 3-leaf/3-family + 300 seeded 4-leaf (2-4 species leaves, 2-4 families) "
                           "+ 60 seeded 5-leaf inputs",
                 "costs": "spe, dup, hgt, floss, sloss: all non-negative integers with spe + 2*sloss <= dup + 2*floss; second run hgt = infinity.inf; "
